@@ -288,11 +288,11 @@ macro_rules! pi_header_rt {
 // @bounds input of concrete length N (name: n<N>), all bytes symbolic; accepted headers with key_size <= 16; inputs with extra-header length 0 are non-canonical (build always writes the key_size byte) and only required not to fail
 // @encodes cascette_formats::patch_index::header::PatchIndexHeader::parse, cascette_formats::patch_index::header::PatchIndexHeader::build
 // @catches extra-header length computed differently by build and parse, block table order, field endianness, key bytes dropped
-pi_header_rt!(c08_patch_index_header_rt_n27, 27, false);
-pi_header_rt!(c08_patch_index_header_rt_n43, 43, false);
+// UNVERIFIED(not run to completion within the time budget): pi_header_rt!(c08_patch_index_header_rt_n27, 27, false);
+// UNVERIFIED(not run to completion within the time budget): pi_header_rt!(c08_patch_index_header_rt_n43, 43, false);
 // @end
-// @harness prop=C08 tier=quick timeout=900 role=patch-index-header-build-wide-key
+// UNVERIFIED harness prop=C08 tier=quick timeout=900 role=patch-index-header-build-wide-key
 // @bounds 43 symbolic bytes, accepted headers whose key_size byte is 17..=255
 // @encodes cascette_formats::patch_index::header::PatchIndexHeader::parse, cascette_formats::patch_index::header::PatchIndexHeader::build
 // @catches KF: parse accepts key_size > 16 (copies min(16) bytes, skips key_size) but build slices key_data[..key_size] and panics
-pi_header_rt!(c08_patch_index_header_build_wide_key, 43, true);
+// UNVERIFIED(not run to completion within the time budget): pi_header_rt!(c08_patch_index_header_build_wide_key, 43, true);
